@@ -14,6 +14,7 @@ def circulant(n, offsets_vals, base=0):
     """Symmetric matrix on bins base..base+n-1 whose row sums are all 2*sum(vals): value v at (i, i+k mod n)."""
     px = {}
     for k, v in offsets_vals:
+        F_k = gen.feat(101, k)          # independent feature choices per case (gen.feat)
         assert 0 < k and 2 * k != n and k < n
         for i in range(n):
             j = (i + k) % n
@@ -33,52 +34,54 @@ def cases(tier, seed):
               gen.table_from_edges([[0, 2, 3, 7, 8, 9], [0, 1, 2, 5]]), gen.binnify([6, 6], 1)]
     # (1) the NaN set of the discrete filter pipeline on random integer matrices
     for h in range(320 if tier == "quick" else 9000):
-        table = tables[h % len(tables)]
+        F_h = gen.feat(102, h)          # independent feature choices per case (gen.feat)
+        table = tables[F_h("len_tables@35", len(tables))]
         n = len(table)
         px = gen.random_store(rng, n, "symm", density=rng.choice([0.3, 0.6, 0.9, 1.0]), maxval=6)
-        if h % 17 == 0:
+        if F_h("m17@38", 17) == 0:
             px = []
-        if h % 6 == 2:
+        if F_h("m6@40", 6) == 2:
             # explicitly stored zero counts (e.g. a cooler loaded from a dense dump): records, but not non-zeros
             px = [[i, j, 0 if rng.random() < 0.4 else v] for i, j, v in px]
         nch = 1 + max(t[0] for t in table)
         mode = rng.choice(["genome", "genome", "cis"] + (["trans"] if nch >= 2 else []))
         black = rng.sample(range(n), rng.choice([0, 0, 1, 2]))
-        x0 = [rng.choice([1, 1, 1, 0, -1]) for _ in range(n)] if h % 4 == 1 else []
+        x0 = [rng.choice([1, 1, 1, 0, -1]) for _ in range(n)] if F_h("m4@46", 4) == 1 else []
         o = opts(mode, rng.choice([0, 1, 2]), rng.choice([0, 0, 1, 2, 3, 5]), rng.choice([0, 0, 2, 5, 12]), False, black, x0,
-                 h % 3 != 0)
-        case = {"table": table, "px": px, "o": o, "chunk": rng.choice([0, 2, 5, 10 ** 6]), "store": h % 5 == 0, "witness": False}
-        if h % 10 in (4, 5):
-            case["at"] = ["/resolutions/1000", "/a/b"][h % 2]      # a level of a multires file / any nested group
-        if h % 7 == 6:
+                 F_h("m3@48", 3) != 0)
+        case = {"table": table, "px": px, "o": o, "chunk": rng.choice([0, 2, 5, 10 ** 6]), "store": F_h("m5@49", 5) == 0, "witness": False}
+        if F_h("m10@50", 10) in (4, 5):
+            case["at"] = ["/resolutions/1000", "/a/b"][F_h("m2@51", 2)]      # a level of a multires file / any nested group
+        if F_h("m7@52", 7) == 6:
             case["prior"] = True                                   # the path held another collection before
-        if h % 9 == 7:
+        if F_h("m9@54", 9) == 7:
             case["stale"] = True                                   # balanced through an object that predates the current content
-        if h % 11 in (4, 8) and not x0:
+        if F_h("m11@56", 11) in (4, 8) and not x0:
             case["via"] = "cli"
             case["o"]["rescale"] = True
-            case["nproc"] = [0, 1, 2, 8][(h // 11) % 4]            # 0: the command's default (8 processes)
-            if h % 11 == 8:
+            case["nproc"] = [0, 1, 2, 8][F_h("d11_4@59", 4)]            # 0: the command's default (8 processes)
+            if F_h("fewpx", 2) == 0:
                 case["px"] = case["px"][:rng.randint(0, 6)]        # fewer stored pixels than worker processes
             # (the blacklist goes through a BED file with a header line: one region per blacklisted bin, ending on the bin edge)
         yield "bl.balance", case
     # (2) witness family: uniform filtered marginals S in {4, 16, 64}: exact weights 1/sqrt(S), scale S, converged
     for h in range(90 if tier == "quick" else 1200):
-        kind = h % 3
+        F_h = gen.feat(103, h)          # independent feature choices per case (gen.feat)
+        kind = F_h("m3@66", 3)
         if kind == 0:                              # genome-wide, 1-2 chromosomes
             n = rng.choice([7, 8, 9, 11])
-            lens = [n] if h % 2 else [n - 3, 3]
+            lens = [n] if F_h("m2@69", 2) else [n - 3, 3]
             v = rng.choice([[(2, 2)], [(3, 2)], [(2, 8)], [(2, 2), (3, 6)], [(2, 1), (3, 1)], [(3, 32)]])
             px = circulant(n, [kv for kv in v if kv[0] * 2 != n])
             table = gen.binnify(lens, 1)
-            o = opts("genome", 2, rng.choice([0, 1, 2]), rng.choice([0, 2]), h % 4 == 1, [], [], h % 5 != 0)
+            o = opts("genome", 2, rng.choice([0, 1, 2]), rng.choice([0, 2]), F_h("m4@73", 4) == 1, [], [], F_h("m5@73", 5) != 0)
         elif kind == 1:                            # cis-only, per-chromosome scales
             n1, n2 = rng.choice([(7, 5), (5, 7), (6, 5), (9, 7)])
             px = circulant(n1, [(2, rng.choice([2, 8]))]) + circulant(n2, [(2, rng.choice([2, 8, 32]))], base=n1)
             px += [[0, n1, 5], [1, n1 + 2, 3]]       # trans pixels that cis-only must ignore
             px.sort()
             table = gen.binnify([n1, n2], 1)
-            o = opts("cis", 2, rng.choice([0, 2]), 0, False, [], [], h % 2 == 0)
+            o = opts("cis", 2, rng.choice([0, 2]), 0, False, [], [], F_h("m2@80", 2) == 0)
         else:                                      # trans-only, two chromosomes of equal size: every bin sees T from the other one
             m = rng.choice([3, 4, 5])
             T = rng.choice([1, 4, 16])
@@ -90,6 +93,7 @@ def cases(tier, seed):
         yield "bl.balance", {"table": table, "px": px, "o": o, "chunk": rng.choice([0, 2, 5]), "store": False, "witness": True}
     # (3) MAD-max on its decidable sub-family: most bins sit on the chromosome median, a few weak bins below it
     for h in range(60 if tier == "quick" else 900):
+        F_h = gen.feat(104, h)          # independent feature choices per case (gen.feat)
         n = rng.choice([9, 10, 11, 13])
         px = dict(((a, b), v) for a, b, v in circulant(n, [(2, 8), (3, 8)]))
         weak = rng.sample(range(n), rng.choice([0, 1, 1]))
